@@ -363,4 +363,11 @@ def rule_h(ctx: Ctx) -> None:
                 'the encoded value.')
 
 
-RULES = [rule_a, rule_b, rule_c, rule_d, rule_e, rule_f, rule_g, rule_h]
+def rule_i(ctx: Ctx) -> None:
+    """Encoding restores the expanded names of decoded data: the declarations a node carries override the enclosing scope when its
+    keys are resolved (C17.e body)."""
+    from .c17 import rule_e as overlay_precedence
+    overlay_precedence(ctx, 'C05.i')
+
+
+RULES = [rule_a, rule_b, rule_c, rule_d, rule_e, rule_f, rule_g, rule_h, rule_i]
